@@ -502,6 +502,10 @@ where
     T: ExecutableTransaction + Cacheable + Signable + MaxFeeLimit,
 {
     let params = &sess.params;
+    // sign once so that the witnesses have their final size (the fee depends on the size)
+    for s in &d.signers {
+        tx.sign_inputs(s, &sess.chain_id);
+    }
     if d.has_predicate && !f.skip_estimate {
         let _ = tx.estimate_predicates(
             &CheckPredicateParams::from(params),
@@ -974,7 +978,8 @@ impl ChainSession {
         if !funded && allow_message && chance(rng, 22) {
             if let Some(m) = w.take_msg(self, rng, None) {
                 d.add_message(self, &m);
-                funded = m.amount() >= min;
+                // retryable (data) messages cannot pay fees on their own
+                funded = m.amount() >= min && m.data().is_empty() && chance(rng, 90);
             }
         }
         if !funded {
@@ -1535,7 +1540,23 @@ impl ChainSession {
         let which = rng.gen_range(0..2u8);
         let bytecode: Vec<u8> = (0..300usize).map(|i| (i as u8).wrapping_mul(3) ^ which).collect();
         let parts = UploadSubsection::split_bytecode(&bytecode, if which == 0 { 128 } else { 160 }).ok()?;
-        let next_expected = (self.height as usize + which as usize) % parts.len();
+        let next_expected = {
+            use fuel_core_storage::{
+                StorageAsRef,
+                tables::UploadedBytecodes,
+            };
+            use fuel_core_types::fuel_vm::UploadedBytecode;
+            match self.on_chain.storage::<UploadedBytecodes>().get(&parts[0].root) {
+                Ok(Some(b)) => match b.as_ref() {
+                    UploadedBytecode::Uncompleted {
+                        uploaded_subsections_number,
+                        ..
+                    } => (*uploaded_subsections_number as usize).min(parts.len() - 1),
+                    UploadedBytecode::Completed(_) => rng.gen_range(0..parts.len()),
+                },
+                _ => 0,
+            }
+        };
         let idx = if chance(rng, 70) { next_expected } else { rng.gen_range(0..parts.len()) };
         let part = parts[idx].clone();
         let mut d = Draft::new(vec![]);
